@@ -39,6 +39,11 @@ var c29RaceQueries = []struct {
 	{"SELECT * FROM bad.json", false, 1},
 	{"SELECT s, a FROM stdin.json WHERE s LIKE 'x%' LIMIT 4", true, 0},
 	{"SELECT x.a FROM a.json x JOIN bad.json y ON x.k = y.k", false, 1},
+	// the function values of the table are shared by every expression of the process: the same function evaluated by
+	// the two input goroutines of a join at once, with different constant arguments on the two sides
+	{"SELECT x.a, y.b FROM (SELECT a, k FROM a.json WHERE s ~ '^x1') x JOIN (SELECT b, k FROM b.json WHERE s ~ '2$') y ON x.k = y.k", false, 0},
+	{"SELECT x.a, y.b FROM (SELECT a, k FROM a.json WHERE s ~* 'X1' AND s LIKE 'x%') x LEFT JOIN (SELECT b, k FROM b.json WHERE s ~* '[0-9]$' AND s LIKE '%2') y ON x.k = y.k", false, 0},
+	{"SELECT x.a, y.b FROM (SELECT a, k, upper(s) AS u FROM a.json WHERE s ~ 'x[12]' AND substr(s, 1) > 'a') x OUTER JOIN (SELECT b, k, lower(s) AS u FROM b.json WHERE NOT s ~ 'x[34]' AND replace(s, 'x', 'y') < 'z') y ON x.k = y.k LIMIT 3000", false, 0},
 }
 
 var c29RaceBuildOnce sync.Once
